@@ -287,6 +287,19 @@ func saveSessionAndFinish(state *dtlsstate.State12, cfg *dtlsconfig.HandshakeCon
 	return Flight6, nil, nil
 }
 
+// validateServerCipherSuite refuses a ServerHello, as left by the message hook,
+// that announces another suite than the one this server selected and will use:
+// with a sibling suite (same key exchange, cipher and hash, other
+// authentication type) the handshake would complete with the two ends
+// reporting different suites.
+func validateServerCipherSuite(serverHello *handshake.MessageServerHello, selected ciphersuite.CipherSuite) error {
+	if serverHello.CipherSuiteID == nil || selected == nil || *serverHello.CipherSuiteID != uint16(selected.ID()) {
+		return dtlserrors.ErrInvalidCipherSuite
+	}
+
+	return nil
+}
+
 func keyFitsCipherSuite(public crypto.PublicKey, suite ciphersuite.CipherSuite) bool {
 	switch public.(type) {
 	case ed25519.PublicKey, *ecdsa.PublicKey:
@@ -369,6 +382,9 @@ func flight4Generate(
 	serverHello, err = negotiation.FinalizeServerHello(serverHello, cfg.ServerHelloMessageHook, offer)
 	if err != nil {
 		return nil, nil, err
+	}
+	if err = validateServerCipherSuite(serverHello, state.CipherSuite); err != nil {
+		return nil, &alert.Alert{Level: alert.Fatal, Description: alert.InternalError}, err
 	}
 	if err = validateServerSRTP(
 		offer, serverHello.Extensions, cfg.LocalSRTPProtectionProfiles, srtpSelection,
